@@ -95,7 +95,7 @@ EXPORT void fft64_vmp_apply_dft_to_dft_avx(const MODULE* module,                
 
       reim4_extract_1blk_from_contiguous_reim_avx(m, row_max, blk_i, (double*)extracted_blk, (double*)a_dft);
       // apply mat2cols
-      for (uint64_t col_i = 0; col_i < col_max - 1; col_i += 2) {
+      for (uint64_t col_i = 0; col_i + 1 < col_max; col_i += 2) {
         uint64_t col_offset = col_i * (8 * nrows);
         reim4_vec_mat2cols_product_avx2(row_max, mat2cols_output, extracted_blk, mat_blk_start + col_offset);
 
